@@ -58,18 +58,34 @@ func validateJSONPatches(patches []byte) error {
 			return fmt.Errorf("%s: path not found", patch.JSONPatch)
 		}
 
-		var path string
-		if err := json.Unmarshal(*pathMsg, &path); err != nil {
-			return fmt.Errorf("%s: invalid path", patch.JSONPatch)
+		if err := validateJSONPointer(pathMsg, "path"); err != nil {
+			return err
 		}
 
-		if strings.HasPrefix(path, "/"+document.ServiceProperty) {
-			return fmt.Errorf("%s: cannot modify services", patch.JSONPatch)
+		// 'move' and 'copy' operations address a second location through 'from'
+		if fromMsg, ok := p["from"]; ok && fromMsg != nil {
+			if err := validateJSONPointer(fromMsg, "from"); err != nil {
+				return err
+			}
 		}
+	}
 
-		if strings.HasPrefix(path, "/"+document.PublicKeyProperty) {
-			return fmt.Errorf("%s: cannot modify public keys", patch.JSONPatch)
-		}
+	return nil
+}
+
+// validateJSONPointer makes sure that the JSON pointer held by the given member doesn't address protected sections.
+func validateJSONPointer(msg *json.RawMessage, member string) error {
+	var pointer string
+	if err := json.Unmarshal(*msg, &pointer); err != nil {
+		return fmt.Errorf("%s: invalid %s", patch.JSONPatch, member)
+	}
+
+	if strings.HasPrefix(pointer, "/"+document.ServiceProperty) {
+		return fmt.Errorf("%s: cannot modify services", patch.JSONPatch)
+	}
+
+	if strings.HasPrefix(pointer, "/"+document.PublicKeyProperty) {
+		return fmt.Errorf("%s: cannot modify public keys", patch.JSONPatch)
 	}
 
 	return nil
